@@ -177,6 +177,23 @@ def shrink(prog, req, key, check):
 
 
 # ----------------------------------------------------------------------------- the check
+def is_modelled(req) -> bool:
+    """requests with empty / non-string names are outside the model: oracle and C12 only"""
+    return all(isinstance(n_, str) and n_ != "" for n_, _ in req["inputs"] + req["outputs"])
+
+
+def agrees(res, got, req) -> bool:
+    """a model-side result (`res` / `spec` / a history step) against what the real spox.build did"""
+    if not isinstance(res, dict):
+        return False
+    if got[0] == "ok":
+        obs = lf.observed(got[1])
+        return ("inputs" in res and [tuple(x) for x in res["inputs"]] == [tuple(x) for x in obs[0]]
+                and [tuple(x) for x in res["outputs"]] == [tuple(x) for x in obs[1]]
+                and res["outVars"] == [i for _, i in req["outputs"]])
+    return res.get("err") == got[1]
+
+
 def model_request(prog, req, pi=0):
     return {"objs": lf.to_objs(prog), "inputs": req["inputs"], "outputs": req["outputs"], "drop": req["drop"],
             "pi": pi, "fixed": True, "store": lf.preset_store(prog)}
@@ -237,23 +254,43 @@ def run(ck: core.Check):
 
     # ---- correspondence + in-process oracle
     flat = [(prog, req) for prog, reqs in cases for req in reqs]
+    pis = [rng.randrange(5) for _ in flat]
     try:
-        model = ck.driver().ask_many("C03", [model_request(p, r, pi=rng.randrange(5)) for p, r in flat])
+        model = ck.driver().ask_many("C03", [model_request(p, r, pi=q) for (p, r), q in zip(flat, pis)])
     except Exception as e:  # noqa: BLE001
         ck.broken("correspondence", "C03 driver", str(e))
         model = [None] * len(flat)
+    # ---- histories (tie H for Front.runHist / C12.history_independent): the modelled requests of one program, in
+    # the order the real builds run below, executed by the driver one after the other over ONE name store
+    hist_idx, hist_reqs, k_ = [], [], 0
+    for ci, (prog, reqs) in enumerate(cases):
+        steps = [{"inputs": r["inputs"], "outputs": r["outputs"], "drop": r["drop"], "pi": pis[k_ + j]}
+                 for j, r in enumerate(reqs) if is_modelled(r)]
+        k_ += len(reqs)
+        if steps and prog["n"] <= 400:
+            hist_idx.append(ci)
+            hist_reqs.append({"objs": lf.to_objs(prog), "store": lf.preset_store(prog), "hist": steps})
+    try:
+        hist_out = dict(zip(hist_idx, ck.driver().ask_many("C03", hist_reqs)))
+    except Exception as e:  # noqa: BLE001
+        ck.broken("correspondence", "C03 driver (histories)", str(e))
+        hist_out = {}
 
     stats = {"kinds": {}, "outcomes": {}, "nested_only_depth": {}, "dropped_some": 0, "value_checks": 0,
              "runtime_refused": 0, "max_objs": 0}
     mism = 0
     k = 0
     recent = []  # the last builds of this process: a history-dependent failure needs them to replay
+    ci_ = -1
+    spec_stats = {"checked": 0, "ok": 0, "Key": 0, "drop": 0, "dropped_some": 0, "not_wellformed": 0, "mismatches": 0}
+    hist_stats = {"histories": 0, "steps": 0, "failed_steps": 0, "max_len": 0, "mismatches": 0}
     for prog, reqs in cases:
         try:
             env = lf.realize(prog)
         except Exception as e:  # noqa: BLE001 - the public constructors refuse a well-typed program
             ck.broken("correspondence", "program not constructible with the public constructors", f"{type(e).__name__}: {e}")
             k += len(reqs)
+            ci_ += 1
             continue
         stats["max_objs"] = max(stats["max_objs"], prog["n"])
         stats.setdefault("opsets", {})[str(prog.get("opset", 17))] = stats.setdefault("opsets", {}).get(str(prog.get("opset", 17)), 0) + 1
@@ -265,6 +302,8 @@ def run(ck: core.Check):
             if any(r_ >= i_ for r_ in refs):
                 ck.broken("correspondence", "C03 generated program violates WF (reference to a newer object)", str(o_))
         done_here = []  # earlier requests on these very Vars
+        real_steps = []  # (req, got) of the modelled requests, in order: compared with the driver's history run
+        ci_ = ci_ + 1
         for req in reqs:
             m = model[k]
             k += 1
@@ -311,20 +350,35 @@ def run(ck: core.Check):
                                        "prelude": [{"prog": p_, "reqs": rs_} for p_, rs_ in recent[-2:]]})
             done_here.append(req)
             # correspondence (requests with empty / non-string names are outside the model: oracle and C12 only)
-            modelled = all(isinstance(n_, str) and n_ != "" for n_, _ in req["inputs"] + req["outputs"])
+            modelled = is_modelled(req)
+            if modelled:
+                real_steps.append((req, got, names_after))
             if m is not None and modelled:
                 if "error" in m:
                     ok = False
-                elif got[0] == "ok":
-                    obs = lf.observed(got[1])
-                    r = m["res"]
-                    ok = ("inputs" in r and [tuple(x) for x in r["inputs"]] == [tuple(x) for x in obs[0]]
-                          and [tuple(x) for x in r["outputs"]] == [tuple(x) for x in obs[1]]
-                          and r["outVars"] == [i for _, i in req["outputs"]])
                 else:
-                    ok = m["res"].get("err") == got[1]
+                    ok = agrees(m["res"], got, req)
                 if ok and "names" in m:
                     ok = m["names"] == names_after
+                # C03.build_statements_refine_spec: on a well-formed request (wfReq, evaluated by the driver) under
+                # NoClash the result is Front.specBuild - compared here with what the real build did
+                if "error" not in m:
+                    if m.get("wfreq") is True and m.get("noclash") is True:
+                        spec_stats["checked"] += 1
+                        sp = m.get("spec")
+                        spec_stats["ok" if isinstance(sp, dict) and "inputs" in sp else "Key"] += 1
+                        if req["drop"]:
+                            spec_stats["drop"] += 1
+                            if isinstance(sp, dict) and len(sp.get("inputs", req["inputs"])) < len(req["inputs"]):
+                                spec_stats["dropped_some"] += 1
+                        if not agrees(sp, got, req):
+                            spec_stats["mismatches"] += 1
+                            if spec_stats["mismatches"] <= 3:
+                                real = lf.observed(got[1]) if got[0] == "ok" else got[1]
+                                ck.broken("correspondence", "C03 abstract specification (Front.specBuild) vs spox.build on a well-formed request",
+                                          f"req={req} objs={lf.to_objs(prog)} spec={sp} real={real}")
+                    else:
+                        spec_stats["not_wellformed"] += 1
                 if m.get("noclash") is False:
                     # the side condition of the *_noclash theorems fails exactly on the known-finding witnesses
                     stats["noclash_false"] = stats.get("noclash_false", 0) + 1
@@ -338,6 +392,23 @@ def run(ck: core.Check):
                         real = lf.observed(got[1]) if got[0] == "ok" else got[1]
                         ck.broken("correspondence", "C03 front-end model vs spox.build",
                                   f"req={req} objs={lf.to_objs(prog)} model={m} real={real} names={names_after}")
+        # the driver's run of the same requests as ONE history (Front.runHist) against the real sequence
+        h = hist_out.get(ci_)
+        if h is not None and real_steps:
+            hist_stats["histories"] += 1
+            hist_stats["steps"] += len(real_steps)
+            hist_stats["failed_steps"] += sum(1 for _, g, _ in real_steps if g[0] != "ok")
+            hist_stats["max_len"] = max(hist_stats["max_len"], len(real_steps))
+            rs = h.get("results") if isinstance(h, dict) else None
+            okh = (isinstance(rs, list) and len(rs) == len(real_steps)
+                   and all(agrees(r_, g_, q_) for r_, (q_, g_, _) in zip(rs, real_steps))
+                   and h.get("names") == real_steps[-1][2])
+            if not okh:
+                hist_stats["mismatches"] += 1
+                if hist_stats["mismatches"] <= 3:
+                    ck.broken("correspondence", "C03/C12 history model (Front.runHist over the extracted statements) vs the real sequence of builds",
+                              f"objs={lf.to_objs(prog)} steps={[q_ for q_, _, _ in real_steps]} model={h} "
+                              f"real={[(g_[0] if g_[0] == 'ok' else g_[1]) for _, g_, _ in real_steps]} names={real_steps[-1][2]}")
         recent.append((prog, list(done_here)))
         del recent[:-2]
 
@@ -364,6 +435,8 @@ def run(ck: core.Check):
     ck.cov.update({
         "correspondence_cases": len(flat),
         "correspondence_mismatches": mism,
+        "spec_refinement": spec_stats,
+        "history_correspondence": hist_stats,
         "fresh_process_builds": n_fresh,
         "hash_seeds": len(hashseeds),
         "distribution": stats,
